@@ -36,6 +36,8 @@ def gen_program(chk, i):
         for k in range(nth):
             cpus = [ncpu, ncpu + 1]
             ncpu += 2
+            if rng.random() < 0.4:
+                cpus = cpus + [-1]      # this thread also runs unbound, on the loom's virtual CPU
             ops = []
             # definitions: every thread defines a subset (at least one thread defines each)
             mine = [t for t in types if rng.random() < 0.6 or (p == 0 and k == 0)]
@@ -44,9 +46,9 @@ def gen_program(chk, i):
                 for v, lab in types[t]["labels"].items():
                     if rng.random() < 0.7 or (p == 0 and k == 0):
                         ops.append("mark_label %d %d %s" % (t, v, lab))
-            ops.append("ev OHx now %s" % obs.i32(cpus[0], tid, 0).hex())
+            cur = rng.choice(cpus) if rng.random() < 0.5 else cpus[0]
+            ops.append("ev OHx now %s" % obs.i32(cur, tid, 0).hex())
             state = "running"
-            cur = cpus[0]
             stacks = {t: [] for t in types}
             for _ in range(rng.randint(5, 60)):
                 r = rng.random()
